@@ -135,3 +135,170 @@ static void c04_body(bool focus) {
 
 SIM_SCENARIO(scen_c04, "c04", "C04", 6000000, 30000) { c04_body(false); }
 SIM_SCENARIO(scen_c04b, "c04b", "C04", 6000000, 30000) { c04_body(true); }
+
+// c04c — life cycle over several rounds: heap contexts that stay bound while the contexts above them are reset and
+// cancelled again, cancelled contexts carried into the next round without reset, and stack-allocated ("ephemeral")
+// contexts that are created, bound and destroyed by the bodies while cancellations propagate through the thread lists.
+namespace {
+struct LNode {
+    bool isolated = false, ephemeral = false;
+    int parent = -1;
+    std::vector<int> kids;
+    int points = 0;
+    tbb::task_group_context* ctx = nullptr;   // persistent: heap object for the whole run; ephemeral: the live stack object or null
+    bool bound = false;                        // persistent: its algorithm was started at least once (it is bound for good)
+    bool carried = false;                      // persistent: cancelled when the round began (not reset)
+    // per round (ephemeral: per instance)
+    std::vector<int> cancels;
+    bool invoked = false, returned = false;
+    int cancel_calls = 0, cancel_done = 0, cancel_true = 0;
+};
+std::vector<LNode>* L = nullptr;
+
+void l_cancel(int target) {
+    LNode& n = (*L)[(size_t)target];
+    if (!n.ctx) return;                        // ephemeral context that is not alive
+    n.cancel_calls++;
+    sim::note("cancel ctx%d (%p) begin", target, (void*)n.ctx);
+    bool r = n.ctx->cancel_group_execution();
+    sim::note("cancel ctx%d -> %d", target, (int)r);
+    n.cancel_done++; if (r) n.cancel_true++;
+    sim::fault_fired("cancel");
+}
+// is a member of the bound chain of node i (i itself included) known to be cancelled?  done_only: only cancel calls that
+// that have already returned TRUE (and carried state) count: the losing caller of two concurrent cancels returns at once,
+// while the winner may still be propagating.
+bool l_chain_cancelled(int i, bool done_only) {
+    for (int c = i; c >= 0;) {
+        LNode& x = (*L)[(size_t)c];
+        if (x.carried || (done_only ? x.cancel_true : x.cancel_calls) > 0) return true;
+        if (x.isolated) break;
+        c = x.parent;
+    }
+    return false;
+}
+void l_run(int i);
+void l_algo(int i, tbb::task_group_context& ctx) {
+    LNode& n = (*L)[(size_t)i];
+    int iters = std::max((int)n.kids.size(), std::max(1, (int)n.cancels.size()));
+    tbb::parallel_for(tbb::blocked_range<int>(0, iters, 1), [i](const tbb::blocked_range<int>& r) {
+        LNode& me = (*L)[(size_t)i];
+        for (int j = r.begin(); j < r.end(); ++j) {
+            for (int k = 0; k < me.points; ++k) sim::upoint();
+            if (j < (int)me.cancels.size()) l_cancel(me.cancels[(size_t)j]);
+            if (j < (int)me.kids.size()) l_run(me.kids[(size_t)j]);
+        }
+    }, tbb::simple_partitioner(), ctx);
+}
+void l_run(int i) {
+    LNode& n = (*L)[(size_t)i];
+    if (!n.ephemeral) { n.invoked = true; n.bound = true; l_algo(i, *n.ctx); n.returned = true; return; }
+    // stack-allocated context: created, bound (beneath the context of the running body), used and destroyed here
+    tbb::task_group_context local(n.isolated ? tbb::task_group_context::isolated : tbb::task_group_context::bound);
+    n.cancel_calls = n.cancel_done = n.cancel_true = 0; n.carried = false;
+    n.ctx = &local; n.invoked = true;
+    sim::note("stack ctx%d (%p) created", i, (void*)&local);
+    bool must = !n.isolated && l_chain_cancelled(n.parent, /*done_only=*/true);   // a cancel above had returned before this context existed
+    l_algo(i, local);
+    bool is = local.is_group_execution_cancelled();
+    sim::note("stack ctx%d algorithm returned, cancelled=%d must=%d", i, (int)is, (int)must);
+    if (must) SIM_CHECK(is, "oracle:cancel-missed", "stack context %d was created and bound after cancel_group_execution on a context above it had returned, yet it is not cancelled", i);
+    if (!l_chain_cancelled(i, /*done_only=*/false)) SIM_CHECK(!is, "oracle:cancel-leaked", "stack context %d is cancelled although no cancel was requested on it or above it", i);
+    SIM_CHECK(n.cancel_true <= 1, "oracle:two-winners", "%d cancel_group_execution calls on stack context %d returned true", n.cancel_true, i);
+    n.ctx = nullptr; n.returned = true;
+    sim::probe("ephemeral-context");
+}
+}  // namespace
+
+SIM_SCENARIO(scen_c04c, "c04c", "C04", 8000000, 40000) {
+    hx::Desc d;
+    hx::draw_runtime_config(d);
+    sim::g_cfg.tso = sim::draw_bool("tso");
+    std::vector<LNode> tree; L = &tree;
+    int nnodes = (int)sim::draw_range(3, 9, "nodes"), nroots = (int)sim::draw_range(1, 2, "roots"), rounds = (int)sim::draw_range(2, 3, "rounds");
+    tree.resize((size_t)nnodes);
+    std::string ts;
+    for (int i = 0; i < nnodes; ++i) {
+        LNode& n = tree[(size_t)i];
+        n.isolated = i < nroots ? sim::draw_bool("iso_root") : sim::draw(6, "isolated") == 0;
+        if (i >= nroots) { n.parent = (int)sim::draw((uint64_t)i, "parent"); tree[(size_t)n.parent].kids.push_back(i); n.ephemeral = tree[(size_t)n.parent].ephemeral || sim::draw(3, "ephemeral") == 0; }
+        n.points = (int)sim::draw(6, "points");
+        ts += hx::fmt(" %d%s%s<-%d", i, n.isolated ? "i" : "b", n.ephemeral ? "*" : "", n.parent);
+    }
+    // cancel plan per round: (target, by) with by == -1: external thread after a delay
+    struct Cn { int target, by, delay; };
+    std::vector<std::vector<Cn>> plan((size_t)rounds);
+    std::string cs;
+    for (int r = 0; r < rounds; ++r) {
+        int nc = (int)sim::draw_range(1, 3, "ncancels");
+        cs += hx::fmt(" | round %d:", r);
+        for (int c = 0; c < nc; ++c) {
+            Cn x; x.target = (int)sim::draw((uint64_t)nnodes, "target"); x.delay = 0;
+            if (tree[(size_t)x.target].ephemeral) x.by = x.target;                              // a stack context is only cancelled from inside its own group
+            else if (sim::draw(3, "external") == 0) { x.by = -1; x.delay = (int)sim::draw(200, "delay"); }
+            else x.by = (int)sim::draw((uint64_t)nnodes, "by");
+            plan[(size_t)r].push_back(x);
+            cs += x.by < 0 ? hx::fmt(" ext->%d@%d", x.target, x.delay) : hx::fmt(" %d->%d", x.by, x.target);
+        }
+    }
+    int conc = (int)sim::draw(4, "arena_conc");
+    d.add(hx::fmt("life cycle, %d rounds, contexts (* = stack-allocated):%s cancels:%s arena_conc=%d tso=%d", rounds, ts.c_str(), cs.c_str(), conc, (int)sim::g_cfg.tso));
+    d.publish();
+    for (auto& n : tree) if (!n.ephemeral) { n.ctx = new tbb::task_group_context(n.isolated ? tbb::task_group_context::isolated : tbb::task_group_context::bound); sim::tso_register(n.ctx, sizeof(*n.ctx)); }
+    std::vector<sim::event> go((size_t)rounds), checked((size_t)rounds);
+    bool stop = false;
+    // the threads that run the roots (and therefore bind the contexts) live for all rounds
+    std::vector<int> ids;
+    for (int r0 = 0; r0 < nroots; ++r0) ids.push_back(sim::spawn([&, r0] {
+        std::unique_ptr<tbb::task_arena> a; if (conc) a.reset(new tbb::task_arena(conc));
+        for (int r = 0; r < rounds && !stop; ++r) {
+            go[(size_t)r].wait();
+            if (a) a->execute([r0] { l_run(r0); }); else l_run(r0);
+            checked[(size_t)r].wait();
+        }
+    }, "root"));
+    for (int r = 0; r < rounds; ++r) {
+        for (auto& n : tree) { n.cancels.clear(); n.invoked = n.returned = false; n.cancel_calls = n.cancel_done = n.cancel_true = 0; }
+        std::vector<int> ext;
+        for (auto& c : plan[(size_t)r]) {
+            if (c.by >= 0) tree[(size_t)c.by].cancels.push_back(c.target);
+            else ext.push_back(sim::spawn([&, c, r] { go[(size_t)r].wait(); for (int k = 0; k < c.delay; ++k) sim::upoint(); l_cancel(c.target); checked[(size_t)r].wait(); }, "canceller"));
+        }
+        go[(size_t)r].signal();
+        sim::wait_quiescent();     // every algorithm, cancel and bind call of this round has returned
+        for (int i = 0; i < nnodes; ++i) {
+            LNode& n = tree[(size_t)i];
+            if (n.invoked) SIM_CHECK(n.returned, "deadlock", "round %d: the algorithm of context %d never returned", r, i);
+            if (n.ephemeral) continue;
+            SIM_CHECK(n.cancel_true <= 1, "oracle:two-winners", "round %d: %d cancel_group_execution calls on context %d returned true", r, n.cancel_true, i);
+            if (n.carried) SIM_CHECK(n.cancel_true == 0, "oracle:two-winners", "round %d: cancel_group_execution on context %d returned true although it was still cancelled from an earlier round (no reset)", r, i);
+            bool is = n.ctx->is_group_execution_cancelled();
+            bool own = n.carried || n.cancel_calls > 0;
+            bool expected = n.bound ? l_chain_cancelled(i, false) : own;     // all calls have returned: invoked == done
+            if (expected) SIM_CHECK(is, "oracle:cancel-missed", "round %d: context %d is not cancelled although %s (all cancel and bind calls have returned)", r, i,
+                                    own ? "cancel_group_execution was called on it" : "a context it is bound beneath was cancelled");
+            else SIM_CHECK(!is, "oracle:cancel-leaked", "round %d: context %d is cancelled although neither it nor any context it is bound beneath was cancelled", r, i);
+            bool anc = !n.isolated && n.bound && n.parent >= 0 && l_chain_cancelled(n.parent, false);
+            if (!n.carried && n.cancel_calls > 0 && !anc) SIM_CHECK(n.cancel_true == 1, "oracle:no-winner", "round %d: %d cancel calls on the not-yet-cancelled context %d, %d returned true", r, n.cancel_calls, i, n.cancel_true);
+        }
+        // between rounds: reset cancelled contexts (legal: nothing runs), but carry some into the next round still cancelled;
+        // whatever is bound beneath a carried context is carried too
+        std::string rs;
+        for (int i = 0; i < nnodes; ++i) {
+            LNode& n = tree[(size_t)i];
+            if (n.ephemeral) continue;
+            bool is = n.ctx->is_group_execution_cancelled();
+            bool parent_kept = n.bound && !n.isolated && n.parent >= 0 && tree[(size_t)n.parent].carried;   // parents come first (smaller index) and already hold next round's value
+            bool keep = is && (parent_kept || sim::draw(4, "keep_cancelled") == 0);
+            if (is && !keep) { n.ctx->reset(); rs += hx::fmt(" reset(%d)", i); SIM_CHECK(!n.ctx->is_group_execution_cancelled(), "oracle:not-reset", "context %d still reads cancelled after reset()", i); }
+            n.carried = keep;
+        }
+        if (r + 1 == rounds) stop = true;
+        checked[(size_t)r].signal();
+        for (int id : ext) sim::join(id);
+        if (!rs.empty()) sim::probe("context-reset-between-rounds");
+    }
+    for (int id : ids) sim::join(id);
+    for (auto& n : tree) if (!n.ephemeral) { sim::tso_unregister(n.ctx, sizeof(*n.ctx)); delete n.ctx; }
+    L = nullptr;
+}
